@@ -143,92 +143,7 @@ func checkC20(p *Prog, r *Report) {
 
 	// ---- R20.2 one switch predicate ---------------------------------------------
 	r.Rule("R20.2", "shouldSwitchSelectedPair is the table: nothing selected -> switch; same pair -> no; nomination value present -> switch regardless of priority; otherwise switch iff no priority check is required or the selected pair's priority is strictly lower. Every controlled-side selection for a nomination goes through this predicate with the nomination value.", 6)
-	ssp := p.Fn("controlledSelector.shouldSwitchSelectedPair")
-	if r.Anchor("controlledSelector.shouldSwitchSelectedPair", ssp != nil) {
-		pPair, pSel, pVal := p.paramObj(ssp, 0), p.paramObj(ssp, 1), p.paramObj(ssp, 2)
-		isObj := func(e ast.Expr, o any) bool {
-			id, ok := unparen(e).(*ast.Ident)
-			return ok && p.ObjOf(id) == o
-		}
-		t := p.NewTable(ssp)
-		t.Run()
-		sem := t.Semantic(func(a *TAtom) (string, bool) {
-			switch a.Kind {
-			case "enum":
-				if isObj(a.X, pSel) {
-					return "selected", false
-				}
-				if isObj(a.X, pVal) {
-					return "value", false
-				}
-			case "bool":
-				if p.atomIsCall(ssp, a.X, "ice.Agent.needsToCheckPriorityOnNominated") {
-					return "needs", false
-				}
-			case "ord":
-				if (isObj(a.X, pPair) && isObj(a.Y, pSel)) || (isObj(a.Y, pPair) && isObj(a.X, pSel)) {
-					return "same", false
-				}
-				prioOf := func(e ast.Expr) any {
-					c, ok := unparen(e).(*ast.CallExpr)
-					if !ok || p.CalleeName(c) != "ice.CandidatePair.priority" {
-						return nil
-					}
-					sel, _ := unparen(c.Fun).(*ast.SelectorExpr)
-					if sel == nil {
-						return nil
-					}
-					if id, ok := unparen(sel.X).(*ast.Ident); ok {
-						return p.ObjOf(id)
-					}
-					return nil
-				}
-				if prioOf(a.X) == pSel && prioOf(a.Y) == pPair {
-					return "prio", false
-				}
-				if prioOf(a.X) == pPair && prioOf(a.Y) == pSel {
-					return "prio", true
-				}
-			}
-			return "", false
-		})
-		for _, sp := range sem {
-			if len(sp.Unclassified) > 0 {
-				r.Fail("shouldSwitchSelectedPair", sp.EndPos, "the switch decision depends on an unexpected condition "+strings.Join(sp.Unclassified, ","))
-				continue
-			}
-			got := len(sp.Results) == 1 && sp.Results[0] == "true"
-			for _, ord := range []string{"LT", "EQ", "GT"} {
-				if m, ok := sp.Vals["prio"]; ok && !strings.Contains(m, ord) {
-					continue
-				}
-				want := false
-				switch {
-				case sp.Vals["selected"] == "==nil":
-					want = true
-				case sp.Vals["same"] == "EQ":
-					want = false
-				case sp.Vals["value"] == "!=nil":
-					want = true
-				case sp.Vals["needs"] == "false":
-					want = true
-				case sp.Vals["prio"] != "":
-					want = ord == "LT"
-				default:
-					r.Fail("shouldSwitchSelectedPair row "+sp.String(), sp.EndPos, "path decides without consulting the conditions of the specified table")
-					continue
-				}
-				key := "shouldSwitchSelectedPair row sel" + sp.Vals["selected"] + " same=" + sp.Vals["same"] + " value" + sp.Vals["value"] + " needs=" + sp.Vals["needs"]
-				if sp.Vals["prio"] != "" {
-					key += " prio(selected,new)=" + ord
-				}
-				r.Check(got == want, key, sp.EndPos, "switch="+boolStr(want), "the code answers switch="+boolStr(got)+", the property requires "+boolStr(want))
-				if sp.Vals["prio"] == "" {
-					break
-				}
-			}
-		}
-	}
+	checkSwitchPredicate(p, r)
 	// every controlled-side selection is guarded by the predicate
 	for _, fname := range []string{"controlledSelector.HandleBindingRequest", "controlledSelector.HandleSuccessResponse"} {
 		f := p.Fn(fname)
@@ -248,6 +163,24 @@ func checkC20(p *Prog, r *Report) {
 			}
 			r.Check(ok, fname+": selection uses the switch predicate", p.Pos(c.Pos()), detail,
 				"controlled-side selection is not guarded by shouldSwitchSelectedPair with the nomination value: for a valued (re)nomination the decision is taken by pair priority instead of 'latest nomination wins'")
+		}
+	}
+	if f := p.Fn("controlledSelector.HandleBindingRequest"); f != nil {
+		checkNominationValueProvenance(p, r, f, "ice.controlledSelector.shouldSwitchSelectedPair")
+		checkNominationValueProvenance(p, r, f, "ice.controlledSelector.shouldAcceptNomination")
+	}
+	// a nomination that was not accepted changes nothing: neither the selection
+	// nor the deferred-nomination flag
+	if _, sps := selPaths(p, r, "controlledSelector.HandleBindingRequest"); sps != nil {
+		bad := 0
+		for _, sp := range sps {
+			if (sp.Has("select") || sp.Has("defer=true")) && sp.Vals["accept"] != "true" {
+				bad++
+				r.Fail("HandleBindingRequest: rejected nomination has an effect", sp.EndPos, "on "+sp.String()+" a nomination that shouldAcceptNomination did not accept still selects or is remembered for later (superseded nominations resurface when the pair becomes valid)")
+			}
+		}
+		if bad == 0 {
+			r.OK("HandleBindingRequest: only accepted nominations select or are deferred", "selection.go", "every select / defer path decided accept=true")
 		}
 	}
 	// the immediate path: accept before switch, value decoded from the agent's attribute type
